@@ -124,6 +124,16 @@ func buildSeeds(c *Ctx, withLarge bool) []seedFrame {
 		cfg.cc = true
 		add("256K-blocks", cfg, []wstep{{data: append(runsData(g, 262144+5000), g.Bytes(300)...)}}, false)
 	}
+	// the size word of the last block equals the number of content bytes in front of it
+	for k := 0; k < 4; k++ {
+		cfg := base
+		cfg.cc, cfg.bc = k&1 != 0, k&2 != 0
+		if steps, ok := coincidenceScript(c, g, cfg, k >= 2); ok {
+			add(fmt.Sprintf("size-word-equals-decoded-total/bc%d/cc%d", b2i(cfg.bc), b2i(cfg.cc)), cfg, steps, false)
+		} else {
+			c.Count("coincidence_seeds_not_built", 1)
+		}
+	}
 	// legacy: one small block; two flushed blocks
 	{
 		cfg := base
@@ -164,6 +174,32 @@ func buildSeeds(c *Ctx, withLarge bool) []seedFrame {
 		add("large/legacy-2-blocks", cfg, []wstep{{data: mixData(g, 8<<20+70000)}}, true)
 	}
 	return seeds
+}
+
+// coincidenceScript builds a flushed message stream in which the size word of the last
+// block equals the number of content bytes in front of it (one or two blocks): the last
+// message is written alone first to learn the size M its block compresses to, then M bytes
+// of other messages are put in front.  A valid stream; a reader that gives the value of a
+// size word a second meaning (end mark, trailer, magic) trips over it.
+func coincidenceScript(c *Ctx, g *prng.Rng, cfg wcfg, two bool) ([]wstep, bool) {
+	last := gen.Text(g, c.Repo, 9000+g.N(20000))
+	frame, _, err := writeScript(cfg, []wstep{{data: last}})
+	if err != nil {
+		return nil, false
+	}
+	pf, perr := ref.ParseFrame(frame, ref.ParseOpts{})
+	if perr != nil || len(pf.Blocks) != 1 || pf.Blocks[0].Stored {
+		return nil, false
+	}
+	m := pf.Blocks[0].Size
+	if m < 8 || m > cfg.blockMax() {
+		return nil, false
+	}
+	if two {
+		a := 1 + g.N(m-1)
+		return []wstep{{data: g.Bytes(a), flush: true}, {data: runsData(g, m-a), flush: true}, {data: last}}, true
+	}
+	return []wstep{{data: g.Bytes(m), flush: true}, {data: last}}, true
 }
 
 func legacyAmbiguous(pf *ref.Frame) bool {
